@@ -20,8 +20,37 @@ func GenPlan(t *rapid.T, label string) Plan {
 	return p
 }
 
+// GenSrcPlan is GenPlan where, in two cases of five, the source is one of the
+// usual concrete reader types instead of this package's own (Plan.Src).
+func GenSrcPlan(t *rapid.T, label string) Plan {
+	p := GenPlan(t, label)
+	if rapid.IntRange(0, 4).Draw(t, label+"_concrete") < 2 {
+		p.Src = rapid.SampledFrom(StreamSrcs).Draw(t, label+"_src")
+	}
+	return p
+}
+
+// GenAtPlan draws an io.ReaderAt: half the time the plain one (eager EOF or
+// not), else one of the standard types.
+func GenAtPlan(t *rapid.T, label string) AtPlan {
+	switch rapid.IntRange(0, 5).Draw(t, label+"_at") {
+	case 0, 1:
+		return AtPlan{Src: SrcPlainAt, EagerEOF: true}
+	case 2:
+		return AtPlan{Src: SrcPlainAt}
+	case 3:
+		return AtPlan{Src: SrcStringsReader}
+	case 4:
+		return AtPlan{Src: SrcSection}
+	}
+	return AtPlan{}
+}
+
 // Class names the plan for histograms.
 func (p Plan) Class() string {
+	if p.Src != "" {
+		return "chunk:src=" + p.Src
+	}
 	s := "chunk:whole"
 	zero := false
 	for _, x := range p.Sizes {
